@@ -6,7 +6,10 @@
 (*   call    c q t              caller c asks for query q                    *)
 (*   att     s p n o q t        server s receives, over p, its n-th request  *)
 (*                              on that transport; it carries the id of the  *)
-(*                              caller it was made for (the origin o)        *)
+(*                              caller it was made for (the origin o).       *)
+(*                              Socket level only: p = "conn" is the n-th    *)
+(*                              TCP connection attempt to s, `limit` the     *)
+(*                              time the runtime was given for it            *)
 (*   end     s p n t res        the scripted reply to that request was       *)
 (*                              delivered (never logged for a request the    *)
 (*                              pool abandoned)                              *)
@@ -76,6 +79,9 @@ AttProblems ==
     \* C18_SharedOnce: a caller that found its query in flight makes no request of its own
     ELSE IF cs[e.o].mode = "joiner" THEN {"exchange-not-shared"}
     ELSE IF cs[e.o].q # e.q THEN {"request-for-another-query"}
+    \* a TCP connection attempt (socket level: the runtime is told how long it may take) is bounded by
+    \* the configured connect timeout, nothing else
+    ELSE IF e.p = "conn" /\ e.limit # cfg.ct THEN {"connect-timeout-not-honoured"}
     ELSE {}
 
 \* for the report: did the caller that created the exchange walk away while others kept waiting?
@@ -102,9 +108,9 @@ EndProblems ==
              \* entry of the in-flight table) its reply is seen late, which is recorded and judged at
              \* the `done` of whoever receives it (answer-without-exchange, healthy-server-not-used ...)
              alive == LkOf(a.q).active /\ LkOf(a.q).origin = cs[a.o].lk
-         IN IF e.res # EffKind(cfg, b) THEN {"harness:reply-not-as-scripted"}
-            ELSE IF alive /\ e.t # a.st + Dur(cfg, b) THEN {"harness:reply-not-as-scripted"}
-            ELSE IF ~alive /\ e.t < a.st + Dur(cfg, b) THEN {"harness:reply-not-as-scripted"}
+         IN IF e.res # KindOf(cfg, a.p, b) THEN {"harness:reply-not-as-scripted"}
+            ELSE IF alive /\ e.t # a.st + DurOf(cfg, a.p, b) THEN {"harness:reply-not-as-scripted"}
+            ELSE IF ~alive /\ e.t < a.st + DurOf(cfg, a.p, b) THEN {"harness:reply-not-as-scripted"}
             ELSE {}
 
 EndUpdate ==
